@@ -63,7 +63,12 @@ def _rangelist(o, items):
     args = []
     for it in items:
         if isinstance(it, list):
-            args.append((_item(o, it[0]), _item(o, it[1])))
+            if it[0] == ('f', 'x') or (isinstance(it[0], tuple) and it[0][0] == 'bin' and it[0][2] == ('f', 'x')):
+                # both documented spellings of a range: vsc.rng(lo, hi) when the lower bound is the field x ...
+                args.append(vsc.rng(_item(o, it[0]), _item(o, it[1])))
+            else:
+                # ... a (lo, hi) tuple otherwise
+                args.append((_item(o, it[0]), _item(o, it[1])))
         else:
             args.append(_item(o, it))
     return vsc.rangelist(*args)
